@@ -399,7 +399,7 @@ def sample(ctx, budget=1.0, hint=None, broken=None):
                 for stepi in range(r.randint(1, 12)):
                     n = len(path)
                     k = r.choice(['set', 'setneg', 'slice', 'del', 'ins', 'app', 'ext', 'pop', 'rev', 'sstart', 'send', 'iadd',
-                                  'alias', 'twin', 'q', 'q', 'qlen-loose'])
+                                  'alias', 'twin', 'hashtwin', 'q', 'q', 'qlen-loose'])
                     try:
                         if k == 'set' and n:
                             i = r.randrange(n); path[i] = seg('line'); hist.append('p[%d]=seg' % i)
@@ -459,6 +459,21 @@ def sample(ctx, budget=1.0, hint=None, broken=None):
                             z = complex(r.randint(-4, 4), r.randint(-4, 4)) + 0.25
                             if z != path[-1].start:
                                 path.end = z; hist.append('end=%r' % z)
+                        elif k == 'hashtwin' and n and not isinstance(path[0], P.Arc) and not isinstance(path[-1], P.Arc):
+                            # two DIFFERENT values with EQUAL hash (CPython: hash(-1.0) == hash(-2.0), also inside a complex): set one,
+                            # let every cache fill, then set the other - anything keyed on hash(...) believes nothing changed
+                            a_ = float(r.randint(-4, 4))
+                            how_ = r.choice(['start', 'end', 'item'])
+                            v1_, v2_ = r.choice([(complex(a_, -1.0), complex(a_, -2.0)), (complex(-2.0, a_), complex(-1.0, a_))])
+                            if how_ == 'start' and v1_ != path[0].end and v2_ != path[0].end:
+                                path.start = v1_; _queries(spt, path); path.start = v2_; hist.append('start=%r; queries; start=%r' % (v1_, v2_))
+                            elif how_ == 'end' and v1_ != path[-1].start and v2_ != path[-1].start:
+                                path.end = v1_; _queries(spt, path); path.end = v2_; hist.append('end=%r; queries; end=%r' % (v1_, v2_))
+                            else:
+                                i = r.randrange(n)
+                                p0_ = complex(r.randint(3, 6), 0.5)
+                                mk_ = r.choice([lambda e_: P.Line(p0_, e_), lambda e_: P.CubicBezier(p0_, p0_ + 1j, e_ - 1, e_), lambda e_: P.QuadraticBezier(p0_, p0_ - 2j, e_)])
+                                path[i] = mk_(v1_); _queries(spt, path); path[i] = mk_(v2_); hist.append('p[%d]=seg ending %r; queries; p[%d]=same ending %r' % (i, v1_, i, v2_))
                         elif k == 'qlen-loose':
                             hist.append('length(error=1e-3,min_depth=1)')
                             path.length(error=1e-3, min_depth=1)
@@ -542,6 +557,13 @@ def sample(ctx, budget=1.0, hint=None, broken=None):
                 if r.random() < 0.6:
                     attr = r.choice({'line': ['start', 'end'], 'quad': ['start', 'control', 'end'], 'cubic': ['start', 'control1', 'control2', 'end']}[kind])
                     z = getattr(s, attr) + complex(r.randint(1, 3), r.randint(-3, 3))
+                    if r.random() < 0.35:
+                        # the reassignment moves exactly one coordinate between -1 and -2, two values with equal hash
+                        a_ = float(r.randint(-4, 4))
+                        v1_, z = r.choice([(complex(a_, -1.0), complex(a_, -2.0)), (complex(-2.0, a_), complex(-1.0, a_))])
+                        setattr(s, attr, v1_); s.length(); hist.append('%s=%r; length()' % (attr, v1_))
+                        if kind == 'quad':
+                            s.length(1, 0)
                     setattr(s, attr, z); hist.append('%s=%r' % (attr, z))
                 if kind == 'line' and s.start == s.end:
                     continue
